@@ -37,7 +37,9 @@ CLAIMS = {
              "NotFittedError before fit), _BaseWindowForecaster._predict_fixed_cutoff (one value per step, labels = cutoff + step or the "
              "requested labels, increasing, for a cutoff anywhere in the remembered series), _BaseWindowForecaster._predict (steps <= 0 go "
              "to the in-sample path, steps > 0 to the fixed-cutoff path, results joined in horizon order), _update_y_X (cutoff = last label of the "
-             "data passed to update), to_absolute / to_absolute_int (C02), PolynomialTrendForecaster fit/_predict labels.",
+             "data passed to update), to_absolute / to_absolute_int (C02), PolynomialTrendForecaster fit/_predict labels; "
+             "_predict_moving_cutoff (with the real _detached_cutoff context manager) leaves the cutoff where it was, on normal and on "
+             "raising paths, with the cutoff after earlier loop iterations havoc'd.",
         note="'finite for finite data' is not decided (floating point / statistical fits); whole forecasters and their compositions, "
              "shift invariance end-to-end and statsmodels adapters are covered by the bounded native tier only (56k cases quick)",
         technique="contract-based deductive verification: AST->VC generation (pyvc) + z3; abstract _predict/_predict_last_window with ghost trace",
@@ -49,7 +51,9 @@ CLAIMS = {
              "False; every apply-type method every concrete class defines or inherits from repo code is executed on a freshly "
              "constructed object with well-formed arguments and must raise NotFittedError on every path; nested parameters: "
              "_HeterogenousMetaEstimator._set_params/_get_params (whole list, then by name, then plain/nested keys; unknown names "
-             "rejected) and fit-leaves-parameters for the pipeline and NaiveForecaster.fit (32 cases); Detrender.update guard.",
+             "rejected), the same _set_params on a ColumnEnsembleClassifier (pairs derived from stored triples through a property setter) "
+             "and fit-leaves-parameters for the pipeline and NaiveForecaster.fit (32 cases); Detrender.update guard. Truth values of "
+             "unknown constructor arguments are symbolic (`arg or default` explores both branches).",
         note="best-effort sweep: classes/methods whose code leaves the verified subset are listed in the evidence as not covered (they "
              "do not make the run undecided); sklearn BaseEstimator.get_params/set_params/clone are modelled from their documented "
              "algorithm (assumed); known constructor deviations are listed in known_findings.json; runnable estimators are "
@@ -66,7 +70,8 @@ CLAIMS = {
              "squared percentage error, median squared error, mean / median / geometric-mean relative absolute error, geometric-mean "
              "relative squared error): ONE column aggregate over exactly the cells g(kernel(y_true_i, y_pred_i)) with g = abs / square "
              "(zeros replaced by EPS for the geometric means), weights = horizon_weight when given and the weighted aggregate then, "
-             "optional square root, uniform average over outputs; all 18 metric classes: __call__ forwards "
+             "optional square root, uniform average over outputs; a zero divisor inside an array expression of a result is an obligation "
+             "(numpy would return inf/nan) that only an infeasible path discharges; all 18 metric classes: __call__ forwards "
              "(y_true, y_pred) in that order and each constructor option under the function's own keyword.",
         note="machine arithmetic treated as mathematical (float64 rounding, overflow, NaN not decided); sklearn aggregates "
              "(mean_absolute_error, median_absolute_error, np.average / np.median / np.mean, _weighted_percentile, gmean, np.sqrt) are "
